@@ -9,7 +9,12 @@ D="$(cd "$1" && pwd)"; shift
 # work from a frozen copy of /verif: edits made meanwhile cannot break the run, and the evidence
 # written by runs against a changed tree does not overwrite /verif/evidence
 SNAP=$(mktemp -d /dev/shm/verifsnap-XXXXXX)
-rsync -a --exclude .git --exclude bin --exclude evidence --exclude replays --exclude seeded /verif/ "$SNAP/"
+# /verif may be in the middle of an edit: take the copy again until it builds
+for try in 1 2 3 4 5 6 7 8 9 10 11 12; do
+  rsync -a --delete --exclude .git --exclude bin --exclude evidence --exclude replays --exclude seeded /verif/ "$SNAP/"
+  if (cd "$SNAP" && GOFLAGS=-mod=mod GOPROXY=off GOSUMDB=off GOTOOLCHAIN=local GOWORK=off go build ./... >/dev/null 2>&1); then break; fi
+  sleep 20
+done
 cd "$SNAP"
 WT=$(mktemp -d /dev/shm/seedwt-XXXXXX)
 rmdir "$WT"
